@@ -272,6 +272,13 @@ var otherGrid = []others{
 	{X: 1, Y: 0, S: "(", B: true, L: []string{}, D: 0},
 }
 
+func (o others) litsFor(c celCase) string {
+	if c.TypeExpr != "" {
+		return fmt.Sprintf("X: %d, Y: %d", o.X, o.Y)
+	}
+	return o.lits()
+}
+
 func (o others) lits() string {
 	var q []string
 	for _, x := range o.L {
@@ -599,6 +606,8 @@ type celCase struct {
 	Feats  []string
 	Corpus bool
 	Extra  string // extra marker lines written before the cel marker
+	Pre    bool   // a field `G int` with //govalid:gt=0 declared BEFORE the cel field and left at 0: a rule that has already failed when the cel field's cancellation point is reached
+	TypeExpr string // a second cel expression written on the struct declaration (applies to every field; the struct then has int fields only)
 }
 
 var celFieldTypes = []string{"int", "int64", "int8", "int16", "int32", "uint", "uint8", "uint32", "uint64", "float64", "string", "bool", "[]string", "[]int", "[]bool", "map[string]int", "time.Duration"}
@@ -666,6 +675,15 @@ func celCorpus() []celCase {
 		celCase{ID: "t002", FType: "int64", Expr: "value > 0", Feats: []string{"corpus", "cel+same-rule"}, Corpus: true, Extra: "\t//govalid:gt=0\n"},
 		celCase{ID: "t003", FType: "int", Expr: "value >= 21", Feats: []string{"corpus", "cel+other-rule"}, Corpus: true, Extra: "\t//govalid:gte=18\n"},
 		celCase{ID: "t004", FType: "string", Expr: "size(value) > 2", Feats: []string{"corpus", "cel+other-rule"}, Corpus: true, Extra: "\t//govalid:required\n"},
+		// a rule that has already failed before the cel field's cancellation point (C15), with division by a field
+		celCase{ID: "p000", FType: "int", Expr: "value / this.Y >= 1", Feats: []string{"corpus", "pre-failed-rule", "div"}, Corpus: true, Pre: true},
+		celCase{ID: "p001", FType: "int", Expr: "value % this.Y == 0", Feats: []string{"corpus", "pre-failed-rule", "mod"}, Corpus: true, Pre: true},
+		celCase{ID: "p002", FType: "int", Expr: "value >= 18", Feats: []string{"corpus", "pre-failed-rule"}, Corpus: true, Pre: true},
+		celCase{ID: "p003", FType: "string", Expr: "size(value) > 2 && size(value) / this.Y < 100", Feats: []string{"corpus", "pre-failed-rule", "div"}, Corpus: true, Pre: true},
+		// a cel rule on the struct declaration AND a different one on a field: both are checked on that field
+		celCase{ID: "y000", FType: "int", Expr: "value < 100", TypeExpr: "value >= 0", Feats: []string{"corpus", "cel-struct+field"}, Corpus: true},
+		celCase{ID: "y001", FType: "int", Expr: "value != 42", TypeExpr: "value % 2 == 0", Feats: []string{"corpus", "cel-struct+field"}, Corpus: true},
+		celCase{ID: "y002", FType: "int", Expr: "value >= this.X", TypeExpr: "value > -5 && value < 1000", Feats: []string{"corpus", "cel-struct+field"}, Corpus: true},
 		celCase{ID: "s000", FType: "Span", Expr: "value.A <= value.B", Feats: []string{"corpus", "struct-field"}, Corpus: true},
 		celCase{ID: "s001", FType: "Span", Expr: "value.A <= value.B", Feats: []string{"corpus", "struct-field", "required+cel"}, Corpus: true, Extra: "\t//govalid:required\n"},
 		celCase{ID: "s002", FType: "Span", Expr: "value.A + value.B >= this.X", Feats: []string{"corpus", "struct-field", "required+cel"}, Corpus: true, Extra: "\t//govalid:required\n"})
@@ -727,28 +745,43 @@ func celSource(pkg string, c celCase) string {
 	if c.FType == "Span" {
 		imp += "type Span struct {\n\tA int\n\tB int\n}\n\n"
 	}
-	return "package " + pkg + "\n\n" + imp + "type T struct {\n" + c.Extra + "\t//govalid:cel=" + c.Expr + "\n\tF " + c.FType + "\n\n\tX int\n\n\tY int\n\n\tS string\n\n\tB bool\n\n\tL []string\n\n\tD float64\n}\n"
+	if c.TypeExpr != "" {
+		return "package " + pkg + "\n\n" + imp + "//govalid:cel=" + c.TypeExpr + "\ntype T struct {\n" + c.Extra + "\t//govalid:cel=" + c.Expr + "\n\tF " + c.FType + "\n\n\tX int\n\n\tY int\n}\n"
+	}
+	pre := ""
+	if c.Pre {
+		pre = "\t//govalid:gt=0\n\tG int\n\n"
+	}
+	return "package " + pkg + "\n\n" + imp + "type T struct {\n" + pre + c.Extra + "\t//govalid:cel=" + c.Expr + "\n\tF " + c.FType + "\n\n\tX int\n\n\tY int\n\n\tS string\n\n\tB bool\n\n\tL []string\n\n\tD float64\n}\n"
 }
 
 func celDriverFile(pkg string, c celCase, vals []celVal) string {
 	var sb strings.Builder
 	sb.WriteString("package " + pkg + "\n\nimport (\n\t\"context\"\n\t\"errors\"\n\t\"fmt\"\n\t\"io\"\n\t\"math\"\n\t\"sort\"\n\t\"strings\"\n\t\"time\"\n\n\tverrs \"github.com/sivchari/govalid/validation/errors\"\n\n\t\"scen/rt\"\n)\n\nvar _ = math.Pi\nvar _ time.Duration\n\n")
 	sb.WriteString("func run1(v *T) (res string) {\n\tdefer func() {\n\t\tif r := recover(); r != nil {\n\t\t\tres = \"panic\"\n\t\t}\n\t}()\n\tbefore := fmt.Sprintf(\"%#v\", *v)\n\terr := v.Validate()\n\tif after := fmt.Sprintf(\"%#v\", *v); after != before {\n\t\treturn \"mutated\"\n\t}\n\tif err == nil {\n\t\treturn \"ok\"\n\t}\n")
-	sb.WriteString("\tvar ves verrs.ValidationErrors\n\tif !errors.As(err, &ves) {\n\t\treturn \"other\"\n\t}\n\tvar types []string\n\tfor _, e := range ves {\n\t\ttypes = append(types, e.Type)\n\t}\n\tsort.Strings(types)\n\tif errors.Is(err, ErrTFCELValidation) != strings.Contains(\",\"+strings.Join(types, \",\")+\",\", \",cel,\") {\n\t\treturn \"is-mismatch\"\n\t}\n\treturn strings.Join(types, \",\")\n}\n\n")
+	isCheck := "\tif errors.Is(err, ErrTFCELValidation) != strings.Contains(\",\"+strings.Join(types, \",\")+\",\", \",cel,\") {\n\t\treturn \"is-mismatch\"\n\t}\n"
+	if c.TypeExpr != "" {
+		isCheck = "\t_ = ErrTFCELValidation\n" // several cel sentinels: the entries are counted instead
+	}
+	sb.WriteString("\tvar ves verrs.ValidationErrors\n\tif !errors.As(err, &ves) {\n\t\treturn \"other\"\n\t}\n\tvar types []string\n\tfor _, e := range ves {\n\t\ttypes = append(types, e.Type)\n\t}\n\tsort.Strings(types)\n" + isCheck + "\treturn strings.Join(types, \",\")\n}\n\n")
 	// ValidateContext under contexts that turn done at their k-th Err() call (k = 0: already cancelled). Whenever a call
 	// returned non-nil (Calls > K) the context was OBSERVED done and the result must be exactly that error.
 	sb.WriteString("func RunCtx(w io.Writer) {\n\tvar parts []string\n\tfor k := 0; k <= 6; k++ {\n\t\tc := &rt.FlipCtx{Context: context.Background(), K: k, Kind: context.Canceled}\n\t\tres := \"other\"\n")
-	fmt.Fprintf(&sb, "\t\tfunc() {\n\t\t\tdefer func() {\n\t\t\t\tif r := recover(); r != nil {\n\t\t\t\t\tres = \"panic\"\n\t\t\t\t}\n\t\t\t}()\n\t\t\terr := (&T{F: %s, %s}).ValidateContext(c)\n", vals[0].GoLit, otherGrid[1].lits())
+	fmt.Fprintf(&sb, "\t\tfunc() {\n\t\t\tdefer func() {\n\t\t\t\tif r := recover(); r != nil {\n\t\t\t\t\tres = \"panic\"\n\t\t\t\t}\n\t\t\t}()\n\t\t\terr := (&T{F: %s, %s}).ValidateContext(c)\n", vals[0].GoLit, otherGrid[1].litsFor(c))
 	sb.WriteString("\t\t\tswitch {\n\t\t\tcase err == nil:\n\t\t\t\tres = \"nil\"\n\t\t\tcase errors.Is(err, context.Canceled):\n\t\t\t\tres = \"canceled\"\n\t\t\tcase errors.Is(err, ErrTFCELValidation):\n\t\t\t\tres = \"cel\"\n\t\t\t}\n\t\t}()\n")
 	sb.WriteString("\t\tparts = append(parts, fmt.Sprintf(\"%d:%s:%d\", k, res, c.Calls))\n\t}\n")
 	fmt.Fprintf(&sb, "\tfmt.Fprintf(w, \"%s\\tctx\\t%%s\\n\", strings.Join(parts, \",\"))\n}\n\n", c.ID)
 	// stress entry for the race run: bindings that are distinct per goroutine and per iteration
-	fmt.Fprintf(&sb, "func RunStress(g int) {\n\tfor i := 0; i < 150; i++ {\n\t\tv := &T{F: %s, %s}\n\t\tv.S = fmt.Sprintf(\"^a%%d_%%d\", g, i)\n\t\tv.X = g*1000 + i\n\t\t_ = run1(v)\n\t}\n}\n\n", vals[0].GoLit, otherGrid[1].lits())
+	setS := "\t\tv.S = fmt.Sprintf(\"^a%d_%d\", g, i)\n"
+	if c.TypeExpr != "" {
+		setS = ""
+	}
+	fmt.Fprintf(&sb, "func RunStress(g int) {\n\tfor i := 0; i < 150; i++ {\n\t\tv := &T{F: %s, %s}\n%s\t\tv.X = g*1000 + i\n\t\t_ = run1(v)\n\t}\n}\n\n", vals[0].GoLit, otherGrid[1].litsFor(c), setS)
 	sb.WriteString("func Run(w io.Writer) {\n")
 	k := 0
 	for _, v := range vals {
 		for _, o := range otherGrid {
-			fmt.Fprintf(&sb, "\tfmt.Fprintf(w, \"%s\\t%d\\t%%s\\n\", run1(&T{F: %s, %s}))\n", c.ID, k, v.GoLit, o.lits())
+			fmt.Fprintf(&sb, "\tfmt.Fprintf(w, \"%s\\t%d\\t%%s\\n\", run1(&T{F: %s, %s}))\n", c.ID, k, v.GoLit, o.litsFor(c))
 			k++
 		}
 	}
@@ -772,6 +805,17 @@ func refEval(c celCase, vals []celVal) (compileErr string, ast string, results [
 	if err != nil {
 		return err.Error(), ast, nil, nil
 	}
+	var prg2 cel.Program
+	if c.TypeExpr != "" {
+		a2, iss2 := env.Compile(c.TypeExpr)
+		if iss2 != nil && iss2.Err() != nil {
+			return iss2.Err().Error(), "", nil, nil
+		}
+		if prg2, err = env.Program(a2); err != nil {
+			return err.Error(), ast, nil, nil
+		}
+		ast = "" // two expressions on one field: outside the text tie
+	}
 	for _, v := range vals {
 		for _, o := range otherGrid {
 			l := o.L
@@ -786,6 +830,27 @@ func refEval(c celCase, vals []celVal) (compileErr string, ast string, results [
 						res = fmt.Sprint("err:panic ", p)
 					}
 				}()
+				if prg2 != nil {
+					// expected NUMBER of cel entries: the field's own expression on F plus the struct-level one on F, X and Y
+					n := 0
+					for _, q := range []struct {
+						p cel.Program
+						v any
+					}{{prg, v.Cel}, {prg2, v.Cel}, {prg2, o.X}, {prg2, o.Y}} {
+						out, _, err := q.p.Eval(map[string]any{"value": q.v, "this": this})
+						if err != nil {
+							return "err:" + err.Error()
+						}
+						b, ok := out.Value().(bool)
+						if !ok {
+							return "nonbool"
+						}
+						if !b {
+							n++
+						}
+					}
+					return fmt.Sprintf("n=%d", n)
+				}
 				out, _, err := prg.Eval(map[string]any{"value": v.Cel, "this": this})
 				if err != nil {
 					return "err:" + err.Error()
